@@ -85,7 +85,13 @@ type Scenario struct {
 	PriorRepeat int `json:"prior_repeat,omitempty"`
 	// PriorReq: the earlier call (Prior) sends this request instead of Req
 	PriorReq *spec.Req `json:"prior_req,omitempty"`
+	// Address (network clients): the address given to Connect ("" = "script:1"). The dial function of the scenario ignores it,
+	// so every form of a stream address (host:port, tcp://, tcp4://, tcp6://, unix://) must behave the same.
+	Address string `json:"address,omitempty"`
 }
+
+// Addresses are forms of stream-transport addresses Connect accepts ("" is the default of the harness).
+var Addresses = []string{"", "", "localhost:5020", "tcp://localhost:5020", "tcp4://127.0.0.1:502", "tcp6://[::1]:502", "unix:///run/modbus.sock"}
 
 // PriorShapes are the request shapes an earlier call can use.
 var PriorShapes = []string{"", "short", "short", "long"}
@@ -148,13 +154,15 @@ type Outcome struct {
 	Hung     bool
 	// PriorHung: the earlier call on the same client (Scenario.Prior) did not return
 	PriorHung bool
-	Elapsed   time.Duration
-	Writes    [][]byte
-	Reads     []xport.ReadLog
-	Consumed  int
-	Flushes   int
-	WriteSeqs []int
-	Hooks     []HookCall
+	// ReadLeftInFlight: a transport Read was still running 2 s after the call had returned
+	ReadLeftInFlight bool
+	Elapsed          time.Duration
+	Writes           [][]byte
+	Reads            []xport.ReadLog
+	Consumed         int
+	Flushes          int
+	WriteSeqs        []int
+	Hooks            []HookCall
 	// ParserCalls: inputs the wrapped parser saw (CustomParse), with the sequence number relative to hook calls
 	ParserCalls []HookCall
 	// Follow: re-encodings of Resp taken when the call returned and after a later call on the same client
@@ -197,6 +205,10 @@ func Run(sc Scenario) (out Outcome) {
 		cancel = func() { cc(ErrCause) }
 	}
 	defer cancel()
+	address := sc.Address
+	if address == "" {
+		address = "script:1"
+	}
 	script := &xport.Script{Stream: append([]byte(nil), sc.Stream...), Events: append([]xport.Event(nil), sc.Events...), WriteErr: sc.WriteErr, OnCancel: cancel}
 	seq := 0
 	script.Seq = &seq
@@ -279,7 +291,7 @@ func Run(sc Scenario) (out Outcome) {
 						out.Panic = fmt.Sprintf("Connect panicked: %v", p)
 					}
 				}()
-				cerr = c.Connect(context.Background(), "script:1")
+				cerr = c.Connect(context.Background(), address)
 			}()
 			if out.Panic != nil {
 				return out
@@ -289,7 +301,7 @@ func Run(sc Scenario) (out Outcome) {
 				return out
 			}
 		} else if !sc.NotConnected {
-			if err := c.Connect(context.Background(), "script:1"); err != nil {
+			if err := c.Connect(context.Background(), address); err != nil {
 				out.Err = err
 				return out
 			}
@@ -400,6 +412,10 @@ func Run(sc Scenario) (out Outcome) {
 		out.Hung = true
 	}
 	out.Elapsed = time.Since(start)
+	if !out.Hung {
+		// a read the client has abandoned completes before the transport is looked at
+		out.ReadLeftInFlight = !script.WaitIdle(2 * time.Second)
+	}
 	out.Writes, out.Reads, out.Consumed, out.Flushes = script.Snapshot()
 	out.WriteSeqs = append([]int(nil), script.WriteSeqs...)
 	if rec != nil {
